@@ -5,7 +5,7 @@ from __future__ import annotations
 
 import ast
 from inspect import Parameter as SignatureParameter
-from inspect import Signature, cleandoc, getsourcelines
+from inspect import Signature, getsourcelines
 from inspect import signature as getsignature
 from typing import TYPE_CHECKING, Any
 
@@ -158,16 +158,13 @@ class Inspector:
             return None
         if value is None:
             return None
-        try:
-            # We avoid `inspect.getdoc` to avoid getting
-            # the `__doc__` attribute from a parent class,
-            # but we still want to clean the doc.
-            cleaned = cleandoc(value)
-        except AttributeError:
+        if not isinstance(value, str):
             # Triggered on method descriptors.
             return None
+        # We avoid `inspect.getdoc` to avoid getting the `__doc__` attribute from a parent class.
+        # `Docstring` cleans the value itself; cleaning twice is not idempotent.
         return Docstring(
-            cleaned,
+            value,
             parser=self.docstring_parser,
             parser_options=self.docstring_options,
         )
